@@ -221,3 +221,114 @@ func (p *Program) bodyClosure(fs *FuncSrc) []*FuncSrc {
 	}
 	return out
 }
+
+// scanLoop recognises the two spellings of "visit every element of X once, in
+// order": `for ... := range X` and the counted loop `for i := 0; i < len(X); i++`
+// whose index and collection are not assigned in the body.
+type scanLoop struct {
+	Node ast.Stmt
+	X    ast.Expr
+	Body *ast.BlockStmt
+	Key  types.Object // index variable (nil for `for range` / `_`)
+	Val  types.Object // value variable of a range loop
+}
+
+func asScanLoop(info *types.Info, n ast.Node) *scanLoop {
+	switch x := n.(type) {
+	case *ast.RangeStmt:
+		l := &scanLoop{Node: x, X: x.X, Body: x.Body}
+		if id, ok := x.Key.(*ast.Ident); ok && id.Name != "_" {
+			l.Key = info.ObjectOf(id)
+		}
+		if id, ok := x.Value.(*ast.Ident); ok && id.Name != "_" {
+			l.Val = info.ObjectOf(id)
+		}
+		return l
+	case *ast.ForStmt:
+		as, ok := x.Init.(*ast.AssignStmt)
+		if !ok || as.Tok != token.DEFINE || len(as.Lhs) != 1 || len(as.Rhs) != 1 {
+			return nil
+		}
+		id, ok := as.Lhs[0].(*ast.Ident)
+		if !ok {
+			return nil
+		}
+		if tv, ok := info.Types[as.Rhs[0]]; !ok || tv.Value == nil || tv.Value.String() != "0" {
+			return nil
+		}
+		iv := info.Defs[id]
+		if iv == nil {
+			return nil
+		}
+		isI := func(e ast.Expr) bool {
+			j, ok := unparen(e).(*ast.Ident)
+			return ok && info.Uses[j] == iv
+		}
+		lenOf := func(e ast.Expr) ast.Expr {
+			call, ok := unparen(e).(*ast.CallExpr)
+			if !ok || len(call.Args) != 1 {
+				return nil
+			}
+			if f, ok := unparen(call.Fun).(*ast.Ident); !ok || f.Name != "len" || info.Uses[f] != types.Universe.Lookup("len") {
+				return nil
+			}
+			return call.Args[0]
+		}
+		be, ok := unparen(x.Cond).(*ast.BinaryExpr)
+		if !ok {
+			return nil
+		}
+		var coll ast.Expr
+		switch {
+		case (be.Op == token.LSS || be.Op == token.NEQ) && isI(be.X):
+			coll = lenOf(be.Y)
+		case (be.Op == token.GTR || be.Op == token.NEQ) && isI(be.Y):
+			coll = lenOf(be.X)
+		}
+		if coll == nil {
+			return nil
+		}
+		switch post := x.Post.(type) {
+		case *ast.IncDecStmt:
+			if post.Tok != token.INC || !isI(post.X) {
+				return nil
+			}
+		case *ast.AssignStmt:
+			if post.Tok != token.ADD_ASSIGN || len(post.Lhs) != 1 || !isI(post.Lhs[0]) {
+				return nil
+			}
+			if tv, ok := info.Types[post.Rhs[0]]; !ok || tv.Value == nil || tv.Value.String() != "1" {
+				return nil
+			}
+		default:
+			return nil
+		}
+		// neither the index nor the collection is written in the body
+		collS := types.ExprString(coll)
+		okBody := true
+		ast.Inspect(x.Body, func(m ast.Node) bool {
+			switch y := m.(type) {
+			case *ast.AssignStmt:
+				for _, l := range y.Lhs {
+					if isI(l) || types.ExprString(unparen(l)) == collS {
+						okBody = false
+					}
+				}
+			case *ast.IncDecStmt:
+				if isI(y.X) {
+					okBody = false
+				}
+			case *ast.UnaryExpr:
+				if y.Op == token.AND && (isI(y.X) || types.ExprString(unparen(y.X)) == collS) {
+					okBody = false
+				}
+			}
+			return true
+		})
+		if !okBody {
+			return nil
+		}
+		return &scanLoop{Node: x, X: coll, Body: x.Body, Key: iv}
+	}
+	return nil
+}
